@@ -64,7 +64,7 @@ class _Prepare(Contract):
 
     abstract = True
     props = ("C11", "C01")
-    stable_attrs = ("header", "fp", "afterheader", "files", "mp", "main_streams", "packinfo", "packpositions")
+    stable_attrs = ("header", "fp", "afterheader", "files", "mp", "main_streams", "packinfo", "packpositions", "packpos")
     pure = ()
 
     def setup(self, c):
@@ -151,7 +151,9 @@ class PrepareAppend(_Prepare):
         workers = [e for e in eng.trace if e.kind == "call" and e.name.endswith("Worker")]
         ms = attr(attr(self_, "header"), "main_streams")
         positions = attr(attr(ms, "packinfo"), "packpositions")
-        end = B.binop(eng, _ast.Add(), attr(self_, "afterheader"), B.get_item(eng, positions, -1, None), None)
+        # end of the existing packed streams = signature header end + pack position + total packed size
+        start = B.binop(eng, _ast.Add(), attr(self_, "afterheader"), attr(attr(ms, "packinfo"), "packpos"), None)
+        end = B.binop(eng, _ast.Add(), start, B.get_item(eng, positions, -1, None), None)
         expect = V.ite(Not(eq(ms, None)), end, attr(self_, "afterheader"))
         out.append(("positions-after-the-existing-packed-streams", bool(seeks) and eq(seeks[-1].args[0], expect), ("C08", "C14")))
         out.append(("worker-starts-there-too", bool(workers) and eq(workers[-1].args[1], expect), ("C08",)))
